@@ -84,6 +84,19 @@ CHECKS = {
             "and mutually inverse.",
             "Constructor preconditions respected (NUL-free StringList entries, non-missing ExistingInput).",
             "DESIGN 2/C15"),
+    "C08": ("exploration", "hypothesis+bsx",
+            "model-based PBT: generated descriptions x edit histories, each build in a new bsx process, vs a Python description evaluator",
+            "No counter-example among generated descriptions x histories: after every successful build each reachable output "
+            "holds exactly the bytes the evaluator computes from the current description and current source contents; "
+            "builds fail only for missing declared inputs.",
+            "vtool commands are deterministic by construction; discovered dependencies are source files; logical clock for mtimes.",
+            "DESIGN 2/C08"),
+    "C09": ("exploration", "hypothesis+bsx",
+            "metamorphic PBT: one-attribute definition pairs must differ in signature; process-independence; null-build / re-run histories",
+            "No counter-example: every generated single-attribute change of a shell command definition (incl. list-boundary and "
+            "input<->output moves, each deps-style pair, every flag) changes Command::getSignature(); description-only changes do "
+            "not; signatures agree across processes; null builds start nothing, relevant edits and tampered outputs re-run the command.",
+            "Signatures are read through the real BuildFile loader at commandPreparing in a dry build.", "DESIGN 2/C09"),
 }
 
 NOT_APPLICABLE = {
@@ -126,6 +139,9 @@ def main():
             "add_only": True,
         },
         "engines": [
+            {"name": "hypothesis+bsx", "path": "pbt/bs_model.py + harness/bsx.cpp + harness/vtool.c",
+             "serves_properties": [p for p in sorted(CHECKS) if CHECKS[p][1] == "hypothesis+bsx"],
+             "kind_free_text": "Hypothesis generating build descriptions and edit histories; bsx = BuildSystemFrontend front end (target or single node, recording FS); vtool = deterministic command with logical clock and fault injection; oracle = Python description evaluator"},
             {"name": "hypothesis+valtool", "path": "pbt/val.py + harness/valtool.cpp",
              "serves_properties": [p for p in sorted(CHECKS) if CHECKS[p][1] == "hypothesis+valtool"],
              "kind_free_text": "Hypothesis driving a persistent line-protocol server (ASan build) that exposes llbuild's pure value-level functions; replaces the rapidcheck binary planned in DESIGN 1.1 (same oracles, shared evidence/replay plumbing, ~3-5k cases/s)"},
